@@ -808,17 +808,21 @@ static size_t copy_chars (UCHAR* from, UCHAR* to, size_t count, interactive_t* i
             case BREAK:	/* Send back a break character. */
               add_message (ip->ob, telnet_break_response);
               flush_message (ip);
+              ip->state = TS_DATA;
               break;
             case IP:		/* Send back an interupt process character. */
               add_message (ip->ob, telnet_interrupt_response);
+              ip->state = TS_DATA;
               break;
             case AYT:		/* Are you there signal.  Yep we are. */
               add_vmessage (ip->ob, "\n[%s-%s] \n", PACKAGE, VERSION);
+              ip->state = TS_DATA;
               break;
             case AO:		/* Abort output. Do a telnet sync operation. */
               ip->out_of_band = MSG_OOB;
               add_message (ip->ob, telnet_abort_response);
               flush_message (ip);
+              ip->state = TS_DATA;
               break;
             case SB:		/* start subnegotiation */
               ip->state = TS_SB;
